@@ -241,6 +241,52 @@ func (s *c04Source) Read(p []byte) (int, error) {
 
 // ------------------------------------------------------------------ MBT replay
 
+// c04Filler: a byte that the table leaves alone (escaping it gives the byte itself).
+func c04Filler(t *c04Table) (byte, bool) {
+	for b := 0x41; b < 0x7b; b++ {
+		if e := escapeData([]byte{byte(b)}, t.table); len(e) == 1 && e[0] == byte(b) {
+			if d, rem, err := unescapeData([]byte{byte(b), byte(b)}, t.table, nil); err == nil && len(rem) == 0 && len(d) == 2 {
+				return byte(b), true
+			}
+		}
+	}
+	return 0, false
+}
+
+// c04ReadAllGuarded reads the reader to its end with 32 KiB destinations; a reader that neither delivers nor ends
+// within the time is reported (the goroutine is left behind).
+func c04ReadAllGuarded(r readCloser, limit time.Duration) (out []byte, msg string) {
+	type res struct {
+		b   []byte
+		msg string
+	}
+	ch := make(chan res, 1)
+	go func() {
+		var acc []byte
+		m := c04Guard(func() {
+			buf := make([]byte, 32*1024)
+			for k := 0; k < 1<<20; k++ {
+				n, err := r.Read(buf)
+				acc = append(acc, buf[:n]...)
+				if err == io.EOF {
+					return
+				}
+				if err != nil {
+					panic("read error: " + err.Error())
+				}
+			}
+			panic("no end of stream after 2^20 reads")
+		})
+		ch <- res{acc, m}
+	}()
+	select {
+	case x := <-ch:
+		return x.b, x.msg
+	case <-time.After(limit):
+		return nil, "the reader did not end within " + limit.String() + " (it spins or blocks)"
+	}
+}
+
 func c04MBT(d *vCtx) error {
 	cases, err := vReadNDJSON(d.pStr("cases", d.path("cases.ndjson")))
 	if err != nil {
@@ -255,6 +301,11 @@ func c04MBT(d *vCtx) error {
 		Msg  string `json:"msg"`
 	}
 	mismatches := []mism{}
+	stretched := 0
+	stretchOff := false
+	stretchEvery := d.pInt("stretch_every", 6)
+	badAt := map[int]int{}
+	nbadBefore := func(ci int) int { return badAt[ci] }
 	replayed, drift, reads, writes := 0, 0, 0, 0
 	tcache := map[string]*c04Table{}
 	for ci, c := range cases {
@@ -269,6 +320,7 @@ func c04MBT(d *vCtx) error {
 			}
 			tcache[key] = t
 		}
+		badAt[ci] = len(mismatches)
 		bad := func(si int, kind string, want, got any, msg string) {
 			mismatches = append(mismatches, mism{ci, si, kind, want, got, msg})
 		}
@@ -422,8 +474,33 @@ func c04MBT(d *vCtx) error {
 				}
 			}
 		}
+		// the same behaviour at the real scale of the reader's own staging buffer (32 KiB): the model's stream behind a
+		// run of bytes that need no escaping, placed so that each of its bytes in turn is the last one of a full staging
+		// buffer -- one frame, read with destinations of 32 KiB; the decoded stream is the run plus the model's payload
+		if !stretchOff && ci%stretchEvery == 0 && src != nil && wire != nil && len(wire) > 0 && len(steps) > 0 {
+			last, _ := steps[len(steps)-1].(map[string]any)
+			if last != nil && last["a"] == "ret" && last["res"] == "eof" && len(mismatches) == nbadBefore(ci) {
+				if fb, ok := c04Filler(t); ok {
+					wantAll := c04DecodedOfCase(steps)
+					for i := 0; i < len(wire) && i < 6; i++ {
+						n := 32767 - i
+						stream := append(bytes.Repeat([]byte{fb}, n), wire...)
+						want := append(bytes.Repeat([]byte{fb}, n), wantAll...)
+						got, msg := c04ReadAllGuarded(newEscapeReader(t.table, &c04Source{chunks: [][]byte{stream}}), 3*time.Second)
+						stretched++
+						if msg != "" || !bytes.Equal(got, want) {
+							bad(-2, "stretched", map[string]any{"filler": n, "wire": vInts(wire), "want_len": len(want)},
+								map[string]any{"got_len": len(got), "msg": msg}, "the model's stream placed across the end of the reader's 32 KiB staging buffer is not decoded as the model decodes it")
+							stretchOff = msg != "" // a reader left spinning: one finding is enough
+							break
+						}
+					}
+				}
+			}
+		}
 		replayed++
 	}
+	d.set("stretched_replays", stretched)
 	d.set("replayed", replayed)
 	d.set("mismatches", len(mismatches))
 	d.set("drift", drift)
